@@ -135,16 +135,16 @@ func validateWitnesses(prog *ssa.Program, pkg *ssa.Package, results []*harnessRe
 			}
 		}
 	}
-	if len(native) > 0 {
-		outs, log, err := nativeWitnessRun(native, overlay, mutated)
+	for _, grp := range groupByStubs(native) {
+		outs, log, err := nativeWitnessRun(grp, overlay, mutated)
 		if err != nil {
 			problems = append(problems, "native witness run failed: "+err.Error()+": "+tail(log, 800))
-			for _, w := range native {
+			for _, w := range grp {
 				w.Result, w.Detail = "error", err.Error()
 			}
-			return nativeOK, ssaOK, problems
+			continue
 		}
-		for i, w := range native {
+		for i, w := range grp {
 			o, ok := outs[i]
 			switch {
 			case !ok:
@@ -250,4 +250,38 @@ func overrideTargets(ws []*witness) map[string]string {
 		}
 	}
 	return out
+}
+
+
+// groupByStubs partitions witnesses so that within a group no /repo function is replaced by two
+// different stubs (one native build can dispatch a function to one stub only).
+func groupByStubs(ws []*witness) [][]*witness {
+	var groups [][]*witness
+	var maps []map[string]string
+next:
+	for _, w := range ws {
+		for gi, m := range maps {
+			ok := true
+			for _, k := range w.Enable {
+				if cur, has := m[k]; has && cur != w.stubs[k] {
+					ok = false
+					break
+				}
+			}
+			if ok {
+				for _, k := range w.Enable {
+					m[k] = w.stubs[k]
+				}
+				groups[gi] = append(groups[gi], w)
+				continue next
+			}
+		}
+		m := map[string]string{}
+		for _, k := range w.Enable {
+			m[k] = w.stubs[k]
+		}
+		maps = append(maps, m)
+		groups = append(groups, []*witness{w})
+	}
+	return groups
 }
